@@ -92,6 +92,27 @@ M = [
  ('m_c32_early', 'C32', 'cylc/flow/task_proxy.py',
   "            or time() < self.expire_time  # not time yet",
   "            or time() < self.expire_time - 7200  # not time yet"),
+ ('m_c22_precedence', 'C22', 'cylc/flow/broadcast_mgr.py',
+  "        for cycle in ALL_CYCLE_POINTS_STRS + [tokens['cycle']]:",
+  "        for cycle in [tokens['cycle']] + ALL_CYCLE_POINTS_STRS:"),
+ ('m_c22_expire', 'C22', 'cylc/flow/broadcast_mgr.py',
+  "                        get_point(point_string) < cutoff_point):",
+  "                        get_point(point_string) <= cutoff_point):"),
+ ('m_c22_cancel_db', 'C22', 'cylc/flow/workflow_db_mgr.py',
+  "            if is_cancel:\n                self.db_deletes_map[self.TABLE_BROADCAST_STATES].append({",
+  "            if is_cancel and broadcast_change['namespace'] != 'root':\n                self.db_deletes_map[self.TABLE_BROADCAST_STATES].append({"),
+ ('m_c48_exists', 'C48', 'cylc/flow/install.py',
+  "    if rundir.exists():\n        raise WorkflowFilesError(",
+  "    if False and rundir.exists():\n        raise WorkflowFilesError("),
+ ('m_c48_number', 'C48', 'cylc/flow/pathutil.py',
+  "        last_run_num = max(run_numbers, default=0)",
+  "        last_run_num = max(run_numbers, default=0) - 1"),
+ ('m_c48_relink', 'C48', 'cylc/flow/install.py',
+  "    if relink:\n        link_runN(rundir)",
+  "    if relink and run_num != 3:\n        link_runN(rundir)"),
+ ('m_c25_held_delta', 'C25', 'cylc/flow/data_store_mgr.py',
+  "        for field in ('is_held', 'is_queued', 'is_runahead'):\n            val = getattr(itask.state, field)",
+  "        for field in ('is_queued', 'is_runahead'):\n            val = getattr(itask.state, field)"),
  ('m_c09_started_back', 'C09', 'cylc/flow/task_events_mgr.py',
   "            if flag == self.FLAG_RECEIVED and itask.state.is_gt(\n                TASK_STATUS_RUNNING\n            ):\n                # Already running.\n                return True",
   "            if False:\n                # Already running.\n                return True"),
@@ -117,7 +138,7 @@ def main():
             continue
         try:
             open(full, 'w').write(src.replace(old, new))
-            n = {'C20': 60, 'C21': 60, 'C44': 3, 'C42': 3000}.get(prop, 400)
+            n = {'C20': 60, 'C21': 60, 'C44': 3, 'C42': 3000, 'C48': 200}.get(prop, 400)
             r = run(f'timeout 900 {VERIF}/bin/verif check {prop} --tier quick -n {n}', cwd=VERIF)
             caught = r.returncode == 1 and 'VIOLATION' in r.stdout
             rules = sorted({l.split('-')[-1].replace('.json', '') for l in r.stdout.splitlines() if l.startswith('VIOLATION')})
